@@ -413,7 +413,7 @@ def compute_phi_bck_A(Phi_now,core_left,core_A,core_right):
     # Phip = tn.einsum('ijk,klm->ijlm',core_right,Phi_now)
     # Phipp = tn.einsum('ijkl,abjk->ilba',Phip,core_A)
     # Phi = tn.einsum('ijkl,akj->ila',Phipp,core_left)
-    Phi = oe.contract('LSR,lML,sMS,rMR->lsr',Phi_now,core_left,core_A,core_right)
+    Phi = oe.contract('LSR,lML,sMS,rMR->lsr',Phi_now,tn.conj(core_left),core_A,core_right)
     return Phi
 
 def compute_phi_fwd_A(Phi_now, core_left, core_A, core_right):
@@ -436,7 +436,7 @@ def compute_phi_fwd_A(Phi_now, core_left, core_A, core_right):
    #  Phi_next = tn.einsum('lsr,lML,sMNS,rNR->LSR',Phi_now,core_left,core_A,core_right)
     # tme1 = datetime.datetime.now() - tme1 
     # tme2 = datetime.datetime.now()
-    Phi_next = oe.contract('lsr,lML,sMS,rMR->LSR',Phi_now,core_left,core_A,core_right)
+    Phi_next = oe.contract('lsr,lML,sMS,rMR->LSR',Phi_now,tn.conj(core_left),core_A,core_right)
     # tme2 = datetime.datetime.now() - tme2 
     # print('\n>>>>>>>>>>>>>>>>>>>>>>>>>>Time1 ',tme1,' time 2', tme2) 
     return Phi_next
@@ -455,7 +455,7 @@ def compute_phi_bck_rhs(Phi_now,core_b,core):
     """
     #Phit = tn.einsum('ij,abj->iba',Phi_now,core_b)
     #Phi = tn.einsum('ijk,kjc->ic',core,Phit)
-    Phi = oe.contract('BR,bnB,rnR->br',Phi_now,core_b,core)
+    Phi = oe.contract('BR,bnB,rnR->br',Phi_now,core_b,tn.conj(core))
     return Phi
 
 def compute_phi_fwd_rhs(Phi_now,core_rhs,core):
@@ -472,5 +472,5 @@ def compute_phi_fwd_rhs(Phi_now,core_rhs,core):
     """
     # tmp = tn.einsum('ij,jbc->ibc',Phi_now,core_rhs) # shape rk-1 x Nk x rbk
     # Phi_next = tn.einsum('ijk,ijc->kc',core,tmp) 
-    Phi_next = oe.contract('br,bnB,rnR->BR',Phi_now,core_rhs,core)
+    Phi_next = oe.contract('br,bnB,rnR->BR',Phi_now,core_rhs,tn.conj(core))
     return Phi_next
